@@ -20,7 +20,7 @@ RULE = ('documents from a structure-aware generator (paragraphs of unique word t
         'named in a warning; plaintext is reproduced exactly. Distinct by document; non-trivial: >=3 blocks or a field.')
 ASSUME = ['well-formed means: as the serializers in vf/gen/docgen.py write it (each rule cites the markup manual)',
           'fields that pydoctor moves by design (@type into the parameter row, @rtype into Returns) are looked for there']
-DECIDING = {'documents': 1500, 'body_tokens_compared': 20000, 'verbatim_blocks_compared': 500, 'fields_compared': 1000, 'plaintext_compared': 100}
+DECIDING = {'documents': 1500, 'body_tokens_compared': 20000, 'verbatim_blocks_compared': 500, 'fields_compared': 1000, 'plaintext_compared': 100, 'documented_variables_checked': 500}
 CPU_S = 900
 FORMATS = ['epytext', 'restructuredtext', 'google', 'numpy']
 TOK = re.compile(r'w\d{6}')
@@ -29,7 +29,8 @@ PER = 25
 
 def cases(tier: str, seed: int) -> List[Dict[str, Any]]:
     n = 1500 if tier == 'quick' else 40000
-    return [{'seed': seed, 'k': k, 'n': PER} for k in range(0, n, PER)]
+    no = 400 if tier == 'quick' else 8000
+    return [{'seed': seed, 'k': k, 'n': PER} for k in range(0, n, PER)] + [{'part': 'O', 'seed': seed, 'k': k, 'n': 50} for k in range(0, no, 50)]
 
 
 def worker_init() -> None:
@@ -211,8 +212,83 @@ def _judge(res: core.Res, doc: str, exp: docgen.Expect, fmt: str, label: str) ->
         res.distinct(label)
 
 
+# ---- variables documented in the docstring of their class or module -----------------------------------------------------------
+# The text of an @ivar/@cvar/@var field (and of the matching @type field, in whatever order the two are written) is shown with the
+# variable it documents: the variable must be a visible member of its owner and show the tokens of its description and of its type.
+
+def _owner_doc(r: Any, fmt: str) -> Tuple[str, List[Tuple[str, List[str], Optional[str]]]]:
+    n0 = r.randrange(100000, 800000)
+    tok = iter(f'w{n0 + i:06d}' for i in range(100))
+    lines = [f'Owner {next(tok)} {next(tok)}.', '']
+    mk = (lambda tag, arg: f'@{tag} {arg}:') if fmt == 'epytext' else (lambda tag, arg: f':{tag} {arg}:')
+    code = (lambda t: f'C{{{t}}}') if fmt == 'epytext' else (lambda t: f'``{t}``')
+    out: List[Tuple[str, List[str], Optional[str]]] = []
+    fields: List[str] = []
+    for i in range(r.randint(1, 4)):
+        name = f'dv{i}'
+        tag = r.choice(['ivar', 'cvar', 'var'])
+        desc = [next(tok) for _ in range(r.randint(1, 4))]
+        ty = next(tok) if r.random() < .7 else None
+        d = f"{mk(tag, name)} {' '.join(desc)}"
+        t = f'{mk("type", name)} {code(ty)}' if ty else None
+        pair = [x for x in (d, t) if x]
+        if r.random() < .5:
+            pair.reverse()          # the type may be written before the description
+        fields += pair
+        out.append((name, desc, ty))
+    if r.random() < .4:
+        r.shuffle(fields)
+    return '\n'.join(lines + fields) + '\n', out
+
+
+def _run_owner(res: core.Res, case: Dict[str, Any]) -> None:
+    from pydoctor import model, epydoc2stan
+    from pydoctor.options import Options
+    from pydoctor.stanutils import flatten
+    for j in range(case['n']):
+        r = core.rng('C09', 'owner', case['seed'], case['k'] + j)
+        fmt = r.choice(['epytext', 'restructuredtext'])
+        doc, expect = _owner_doc(r, fmt)
+        kind = r.choice(['class', 'module'])
+        assigned = {name for name, _, _ in expect if r.random() < .4}       # some of the variables also exist in the code
+        body = ''.join(f'    {n} = 1\n' if kind == 'class' else f'{n} = 1\n' for n in sorted(assigned))
+        src = f'class Owner:\n    {doc!r}\n{body}    def m(self): pass\n' if kind == 'class' else f'{doc!r}\n{body}def m(): pass\n'
+        opts = Options.from_args([f'--docformat={fmt}'])
+        opts.verbosity = -10
+        system = model.System(opts)
+        b = system.systemBuilder(system)
+        b.addModuleString(src, 'ow')
+        b.buildModules()
+        owner = system.allobjects['ow.Owner' if kind == 'class' else 'ow']
+        w = {'docformat': fmt, 'docstring': doc, 'source': src}
+        res.c('owner_documents')
+        res.c('evaluations')
+        res.distinct(f'owner:{case["seed"]}:{case["k"] + j}')
+        for name, desc, ty in expect:
+            res.c('documented_variables_checked')
+            attr = owner.contents.get(name)
+            if attr is None or not attr.isVisible or attr.kind is None:
+                res.v(f'C09:{fmt}:documented-variable-not-shown', f'{kind} docstring documents {name} ({" ".join(desc)}) but the variable is {"missing" if attr is None else "not a visible member (kind " + str(attr.kind) + ")"}', **w)
+                continue
+            try:
+                shown = TOK.findall(flatten(epydoc2stan.format_docstring(attr)))
+                t_stan = epydoc2stan.type2stan(attr)
+                tshown = TOK.findall(flatten(t_stan)) if t_stan is not None else []
+            except Exception as e:  # noqa: BLE001 -- C08's business
+                res.c('owner_render_raised')
+                continue
+            if shown != desc:
+                res.v(f'C09:{fmt}:documented-variable-text-differs', f'{kind} docstring: the description of {name} is {desc}, the variable shows {shown}', **w)
+            if ty is not None and tshown != [ty]:
+                res.v(f'C09:{fmt}:documented-variable-type-differs', f'{kind} docstring: the type of {name} is {ty}, the variable shows {tshown}', **w)
+    res.sample({'owner_docstring': doc})
+
+
 def run_case(case: Dict[str, Any]) -> core.Res:
     res = core.Res()
+    if case.get('part') == 'O':
+        _run_owner(res, case)
+        return res
     for j in range(case['n']):
         idx = case['k'] + j
         fmt = FORMATS[idx % 4]
